@@ -394,6 +394,39 @@ pub fn replay(args: &[String]) {
 			}
 		}
 	}
+	// Buffered::get(index) of the methods that expose their window (SMA, Past, TRIMA): the value `index` positions back as the
+	// verified Window (C01) holds it, None from `length` on -- for small indices and for indices beyond every PeriodType width
+	if !snap_only {
+		use yata::core::Window;
+		use yata::methods::{Past, SMA, TRIMA};
+		let mut g = Gen::new(seed * 7 + 5, false);
+		for n in [1u64, 2, 3, 10, 100, 254] {
+			let x0 = g.scalar() as ValueType;
+			let n8 = n as PeriodType;
+			let (Ok(mut sma), Ok(mut past), Ok(mut trima)) = (SMA::new(n8, &x0), Past::<ValueType>::new(n8, &x0), TRIMA::new(n8, &x0)) else { continue };
+			let mut mirror: Window<ValueType> = Window::new(n8, x0);
+			for _step in 0..40 {
+				let x = g.scalar() as ValueType;
+				let _ = (Method::next(&mut sma, &x), Method::next(&mut past, &x), Method::next(&mut trima, &x));
+				mirror.push(x);
+				for idx in [0usize, 1, 2, n as usize - 1, n as usize, n as usize + 1, 253, 254, 255, 256, 258, 300, 512, 65535, 65536, 65538, 1 << 32] {
+					let exp = if idx < n as usize { mirror.get(idx as PeriodType).map(|v| v.to_bits()) } else { None };
+					out.checked += 2;
+					let (a, b) = (Buffered::get(&sma, idx).map(|v: ValueType| v.to_bits()), Buffered::get(&past, idx).map(|v: ValueType| v.to_bits()));
+					if a != exp {
+						out.mismatch("SMA:buffered-get:value", json!({"length": n, "index": idx, "expected": format!("{exp:?}"), "actual": format!("{a:?}")}));
+					}
+					if b != exp {
+						out.mismatch("Past:buffered-get:value", json!({"length": n, "index": idx, "expected": format!("{exp:?}"), "actual": format!("{b:?}")}));
+					}
+					let t = Buffered::get(&trima, idx).is_some();
+					if t != (idx < n as usize) {
+						out.mismatch("TRIMA:buffered-get:value", json!({"length": n, "index": idx, "expected_some": idx < n as usize, "actual_some": t}));
+					}
+				}
+			}
+		}
+	}
 	// a snapshot taken at EVERY position of a long regime-shaped stream (plateaus, spikes, scale jumps: running sums holding
 	// rounding residue of either sign, cached extrema with ties) restores, and the restored instance continues bit-identically
 	let mut snap_steps = 0u64;
@@ -522,6 +555,23 @@ pub fn doc_record(args: &[String]) {
 					Ok(Err(_)) => tw.ev(json!({"ev":"doc","subject":subject,"mutation":what,"res":"err"})),
 					Err(_) => tw.ev(json!({"ev":"doc","subject":subject,"mutation":what,"res":"panic"})),
 				}
+			}
+		}
+	}
+	{
+		use yata::methods::{Past, SMA, TRIMA};
+		let mut g = Gen::new(seed * 7 + 5, false);
+		for n in [1u64, 3, 10, 200] {
+			let x0 = g.scalar() as ValueType;
+			let n8 = n as PeriodType;
+			let (Ok(mut sma), Ok(mut past), Ok(mut trima)) = (SMA::new(n8, &x0), Past::<ValueType>::new(n8, &x0), TRIMA::new(n8, &x0)) else { continue };
+			for _ in 0..30 {
+				let x = g.scalar() as ValueType;
+				let _ = (Method::next(&mut sma, &x), Method::next(&mut past, &x), Method::next(&mut trima, &x));
+			}
+			for idx in [0usize, 1, 2, 9, 10, 199, 200, 254, 255, 256, 258, 300, 512, 65535, 65536, 65538] {
+				let f = |v: Option<ValueType>| v.map(|x| format!("{:#x}", (x as f64).to_bits()));
+				tw.ev(json!({"ev":"buffered_get","length":n,"index":idx,"sma":f(Buffered::get(&sma, idx)),"past":f(Buffered::get(&past, idx)),"trima":f(Buffered::get(&trima, idx))}));
 			}
 		}
 	}
